@@ -241,7 +241,7 @@ class RunLab(object):
 
     def run(self, program, args=(), hook_fault=None, step_plugins=(), hook_plugins=(), formatters=None,
             reporters=None, continue_after_failed_step=False, features=None, pre_run=None, messages=None,
-            keep_sys_streams=False, second_run=None):
+            keep_sys_streams=False, second_run=None, config_kwargs=None):
         """Run *program*.  Returns an Obs."""
         st = Obs()
         st.outcomes = program["outcomes"]
@@ -275,7 +275,7 @@ class RunLab(object):
         st.features, st.runner, st.config, st.stream_after = (features or []), None, None, (sys.stdout, sys.stderr)
         try:
             try:
-                config = self.Configuration(list(args), load_config=False)
+                config = self.Configuration(list(args), load_config=False, **(config_kwargs or {}))
             except Exception as ex:
                 # a legal command line must give a Configuration: reported through the same channel as an exception that
                 # escapes the run (every property module checks obs.escaped first)
